@@ -643,3 +643,82 @@ Proof.
   - rewrite (call_applies_to_argument_values env FFirst _ [VPair va vb]); [reflexivity|]. repeat constructor; assumption.
   - rewrite (call_applies_to_argument_values env FRest _ [VPair va vb]); [reflexivity|]. repeat constructor; assumption.
 Qed.
+
+(* ------------------------------------------------------------------ comparison *)
+Section ValInd.
+  Variable P : val -> Prop.
+  Hypothesis HInt : forall z, P (VInt z).
+  Hypothesis HFlt : forall f, P (VFlt f).
+  Hypothesis HChar : forall c, P (VChar c).
+  Hypothesis HStr : forall s, P (VStr s).
+  Hypothesis HSym : forall n, P (VSym n).
+  Hypothesis HBool : forall b, P (VBool b).
+  Hypothesis HNil : P VNil.
+  Hypothesis HPair : forall h t, P h -> P t -> P (VPair h t).
+  Hypothesis HArr : forall l, Forall P l -> P (VArr l).
+  Hypothesis HFun : forall f, P (VFun f).
+  Fixpoint val_ind2 (v : val) : P v :=
+    match v with
+    | VInt z => HInt z | VFlt f => HFlt f | VChar c => HChar c | VStr s => HStr s | VSym n => HSym n
+    | VBool b => HBool b | VNil => HNil
+    | VPair h t => HPair h t (val_ind2 h) (val_ind2 t)
+    | VArr l => HArr l ((fix go (l : list val) : Forall P l :=
+                           match l with
+                           | [] => Forall_nil P
+                           | x :: r => Forall_cons x (val_ind2 x) (go r)
+                           end) l)
+    | VFun f => HFun f
+    end.
+End ValInd.
+
+(* data without floats and functions *)
+Fixpoint plain_data (v : val) : bool :=
+  match v with
+  | VFlt _ | VFun _ => false
+  | VPair h t => plain_data h && plain_data t
+  | VArr l => forallb plain_data l
+  | _ => true
+  end.
+
+Lemma bytes_compare_refl : forall s, bytes_compare s s = 0.
+Proof. induction s as [|c s IH]; [reflexivity|]. cbn. rewrite Z.ltb_irrefl. assumption. Qed.
+Lemma bytes_eqb_refl : forall s, bytes_eqb s s = true.
+Proof. induction s as [|c s IH]; [reflexivity|]. cbn. rewrite Z.eqb_refl. assumption. Qed.
+Lemma cmp_z_refl : forall z, cmp_z z z = 0.
+Proof. intro z. rewrite cmp_z_spec, Z.compare_refl. reflexivity. Qed.
+
+(* == is reflexive on all data without floats and functions, whatever the nesting (and so are <= >=) *)
+Theorem cmp_val_refl : forall v, plain_data v = true -> cmp_val v v = Val 0.
+Proof.
+  induction v as [z|f|c|s|n|b| |h t IHh IHt|l HF|f] using val_ind2; intro Hp; cbn in Hp; try discriminate.
+  - cbn. rewrite cmp_z_refl. reflexivity.
+  - cbn. rewrite cmp_z_refl. reflexivity.
+  - cbn [cmp_val]. rewrite bytes_compare_refl. reflexivity.
+  - cbn [cmp_val]. rewrite bytes_eqb_refl. reflexivity.
+  - destruct b; reflexivity.
+  - reflexivity.
+  - apply andb_true_iff in Hp. destruct Hp as [H1 H2].
+    cbn [cmp_val]. rewrite (IHh H1). exact (IHt H2).
+  - cbn [cmp_val]. induction HF as [|x l Hx Hl IH]; [reflexivity|].
+    cbn [forallb] in Hp. apply andb_true_iff in Hp. destruct Hp as [H1 H2].
+    rewrite (Hx H1). exact (IH H2).
+Qed.
+
+Theorem eq_reflexive_on_plain_data : forall n v, plain_data v = true ->
+  apply_n n (FCmp OpEq) [v; v] = Val (VBool true) /\ apply_n n (FCmp OpNe) [v; v] = Val (VBool false) /\
+  apply_n n (FCmp OpLe) [v; v] = Val (VBool true) /\ apply_n n (FCmp OpLt) [v; v] = Val (VBool false).
+Proof.
+  intros n v H. rewrite !apply_n_fo by discriminate. cbn [apply_fo]. unfold b_cmp.
+  rewrite (cmp_val_refl v H). repeat split.
+Qed.
+
+(* nil is below everything and equal only to itself (comparisons.go: the SexpSentinel case) *)
+Theorem nil_compares_lowest : forall v, cmp_val VNil v = Val (match v with VNil => 0 | _ => -1 end).
+Proof. destruct v; reflexivity. Qed.
+
+(* comparing across kinds (other than int/char/float among themselves, or nil on the left) is an error *)
+Theorem cmp_kind_mismatch_fails : forall s b n l h t z,
+  cmp_val (VStr s) (VInt z) = Fail /\ cmp_val (VInt z) (VStr s) = Fail /\ cmp_val (VBool b) (VInt z) = Fail /\
+  cmp_val (VSym n) (VStr s) = Fail /\ cmp_val (VArr l) (VPair h t) = Fail /\ cmp_val (VPair h t) VNil = Fail /\
+  cmp_val (VInt z) VNil = Fail.
+Proof. intros. repeat split. Qed.
